@@ -1178,7 +1178,7 @@ Lemma uf_write_like (sb sl : mst) (bh lh : nat) (u : ufile) (o : op) hb hl nb nl
   exists (sb' sl' : mst) (r : res) hb' hl' nb' nl',
     (let '(sl1, r) := m_step sl (op_set_handle o lh) in
      match Some bh, res_err r with
-     | Some bh, None => let '(sb1, rb) := m_step sb (op_set_handle o bh) in (sb1, sl1, u, set_err r (res_err rb))
+     | Some bh, None => let '(sb1, rb) := m_step sb (op_set_handle o bh) in (sb1, sl1, u, union_write_result o r rb)
      | _, _ => (sb, sl1, u, r)
      end) = (sb', sl', u, r) /\
     HStep sb sb' bh hb hb' nb' /\ HStep sl sl' lh hl hl' nl' /\ hproj_eq hb' hl' /\ ndata nb' = ndata nl'.
